@@ -636,3 +636,113 @@ func run(rt *rapid.T) {
 }
 
 var _ = errors.Is
+
+// Medium scale: one child transaction rewrites, deletes and adds dozens of keys of a block state of 60..160 keys
+// (its merge hands over well above 64 replaced nodes), a second child follows; a sibling opened before the first merge
+// is discarded.
+func TestMediumMerge(t *testing.T) {
+	ev.Rapid(t, 6, 60)
+	rapid.Check(t, func(rt *rapid.T) {
+		base := util.NewMemoryNodeDB()
+		nkeys := gen.Uniform(rt, 60, 160, "nkeys")
+		key := func(i int) string { return fmt.Sprintf("%02x%02x%02x", (i*37)%256, (i*11)%256, i%256) }
+		model := map[string][]byte{}
+		g := mptkit.NewTrie(base, 1, nil)
+		for i := 0; i < nkeys; i++ {
+			v := []byte(fmt.Sprintf("old-%d", i))
+			if _, err := g.Insert(util.Path(key(i)), mptkit.Val(v)); err != nil {
+				rt.Fatalf("HARNESS: %v", err)
+			}
+			model[key(i)] = v
+		}
+		sc := statecache.NewStateCache()
+		bc := statecache.NewBlockCache(sc, statecache.Block{Round: 2, Hash: "b2", PrevHash: "b1"})
+		version := int64(gen.Pick(rt, []int{1, 2}, "version"))
+		block := util.NewMerklePatriciaTrie(util.NewLevelNodeDB(util.NewMemoryNodeDB(), base, false), util.Sequence(version), g.GetRoot(), statecache.NewTransactionCache(bc))
+		child := func() *util.MerklePatriciaTrie {
+			return util.NewMerklePatriciaTrie(util.NewLevelNodeDB(util.NewMemoryNodeDB(), block.GetNodeDB(), false), block.GetVersion(), block.GetRoot(), statecache.NewTransactionCache(bc))
+		}
+		checkBlock := func(when string) {
+			got, err := mptkit.Content(block)
+			if err != nil || !mptkit.EqualContent(got, model) {
+				rt.Fatalf("%s: the block reads %d pairs (%v), the model has %d; first difference: %s", when, len(got), err, len(model), firstDiff(got, model))
+			}
+			cold, err := mptkit.Content(util.CloneMPT(block))
+			if err != nil || !mptkit.EqualContent(cold, model) {
+				rt.Fatalf("%s: a cold clone of the block reads %d pairs (%v), the model has %d; first difference: %s", when, len(cold), err, len(model), firstDiff(cold, model))
+			}
+			if want := refmpt.Root(model, version); version == 1 && !bytes.Equal(block.GetRoot(), want) {
+				rt.Fatalf("%s: block root %x, reference root of its content %x", when, block.GetRoot(), want)
+			}
+		}
+		sibling := child()
+		if _, err := sibling.Insert(util.Path("ffeedd"), mptkit.Val([]byte("never merged"))); err != nil {
+			rt.Fatalf("HARNESS: %v", err)
+		}
+		for round := 0; round < 2; round++ {
+			c := child()
+			cm := mptkit.CopyContent(model)
+			nops := gen.Uniform(rt, 50, 120, "nops")
+			if round == 1 {
+				nops = gen.Uniform(rt, 1, 70, "nops2")
+			}
+			for i := 0; i < nops; i++ {
+				k := key(gen.Uniform(rt, 0, nkeys+20, "k"))
+				if _, live := cm[k]; live && gen.Chance(rt, 20, "del") {
+					if _, err := c.Delete(util.Path(k)); err != nil {
+						rt.Fatalf("child delete %q: %v", k, err)
+					}
+					delete(cm, k)
+					continue
+				}
+				v := []byte(fmt.Sprintf("new-%d-%d", round, i))
+				if _, err := c.Insert(util.Path(k), mptkit.Val(v)); err != nil {
+					rt.Fatalf("child insert %q: %v", k, err)
+				}
+				cm[k] = v
+			}
+			var err error
+			if gen.Chance(rt, 33, "byvalue") {
+				r, ch, dl, sr := c.GetChanges()
+				err = block.MergeChanges(r, ch, dl, sr)
+			} else {
+				err = block.MergeMPTChanges(c)
+			}
+			if err != nil {
+				rt.Fatalf("merge of a child with %d operations: %v", nops, err)
+			}
+			if !bytes.Equal(block.GetRoot(), c.GetRoot()) {
+				rt.Fatalf("after merging a child with %d operations the block root is %x, the child's %x", nops, block.GetRoot(), c.GetRoot())
+			}
+			model = cm
+			if gen.Chance(rt, 50, "commitcache") {
+				c.Cache().Commit()
+			}
+			checkBlock(fmt.Sprintf("after merge %d (%d operations)", round+1, nops))
+		}
+		// the sibling opened before the merges is stale now: its merge must be refused and change nothing
+		rootBefore := append([]byte(nil), block.GetRoot()...)
+		if err := block.MergeMPTChanges(sibling); err == nil {
+			rt.Fatalf("merge of a sibling opened before two merges was accepted")
+		}
+		if !bytes.Equal(rootBefore, block.GetRoot()) {
+			rt.Fatalf("a refused merge changed the block root")
+		}
+		checkBlock("after the refused merge of the stale sibling")
+		ev.Case(fmt.Sprintf("medium/%d/%d", nkeys, version), true, "medium-scale-merge")
+	})
+}
+
+func firstDiff(got, want map[string][]byte) string {
+	for _, k := range mptkit.SortedKeys(want) {
+		if g, ok := got[k]; !ok || !bytes.Equal(g, want[k]) {
+			return fmt.Sprintf("%q reads %q, want %q", k, g, want[k])
+		}
+	}
+	for _, k := range mptkit.SortedKeys(got) {
+		if _, ok := want[k]; !ok {
+			return fmt.Sprintf("%q reads %q, want absent", k, got[k])
+		}
+	}
+	return ""
+}
